@@ -466,10 +466,60 @@ validator and decoder accept *and* that is `Benign` makes key-field derivation, 
 construction and every decision succeed (for every trace; later answers of the third-party
 samplers assumed non-negative).  The validator contributes nothing to this conclusion
 (`meta_enforces_nothing_relevant`); each clause of `Benign` is needed (the nine witnesses each
-violate exactly one). -/
+violate exactly one; for leaf samplers `leaf_no_crash_iff_benign` proves the equivalence). -/
 theorem valid_config_no_panic_partial (md : Meta) (raw : RawCfg) (c : Choice)
     (_ : load md false raw = .ok c) (hb : Benign c) : NoCrash false laterNonneg c :=
   benign_no_crash c hb
+
+/-- the integers of a leaf configuration are values a Go `int` can hold (the decoder guarantees it) -/
+def leafInRange : Leaf → Prop
+  | .det _ => True
+  | .dyn c => -9223372036854775808 ≤ c.rate ∧ c.rate < 9223372036854775808 ∧
+              -9223372036854775808 ≤ c.initial ∧ c.initial < 9223372036854775808
+
+theorem isOk_eq_true_iff {ε α : Type} (x : Except ε α) : isOk x = true ↔ ∃ a, x = .ok a := by
+  cases x <;> simp [isOk]
+
+/-- **Exactness of the extra hypotheses (leaf samplers)** — for a deterministic or dynsampler-backed
+sampler whose integers fit a Go `int`, the code as it is survives key-field derivation, `Start` and
+the first decision *exactly* when the configuration is `leafBenign`: no clause can be dropped. -/
+theorem leaf_no_crash_iff_benign (l : Leaf) (hr : leafInRange l) :
+    NoCrash false laterNonneg (.leaf l) ↔ leafBenign l := by
+  constructor
+  · rintro ⟨hreq, s, hs, hev⟩
+    cases l with
+    | det rate =>
+      simp only [leafBenign]
+      intro hz
+      simp [start, leafStart, detStart, hz] at hs
+    | dyn c =>
+      obtain ⟨hr1, hr2, hr3, hr4⟩ := hr
+      -- request path: no empty name
+      have hf : "" ∉ c.fieldList := by
+        intro hmem
+        simp [reqKeyFields, leafFields, keyFields, hmem] at hreq
+      -- Start: the sampler could be created
+      simp only [start, leafStart] at hs
+      cases hc : dynCreate false c with
+      | error e => simp [hc] at hs
+      | ok mapsNil =>
+        simp only [hc, keyFields_ok _ hf] at hs
+        cases hs
+        have h0 := hev (fun _ => true) none (by intro a h; cases h)
+        simp only [eval, leafEval] at h0
+        cases mapsNil with
+        | true => simp [isOk] at h0
+        | false =>
+          refine ⟨hf, ?_⟩
+          simp only [Bool.false_eq_true, if_false, Option.getD_none, toU64, toI64] at h0
+          unfold dynCreate at hc
+          unfold initialAnswer at h0
+          cases hk : c.kind <;> simp only [hk] at hc h0 ⊢ <;>
+            simp only [second, millisecond, Bool.false_eq_true, false_and, or_false] at hc ⊢ <;>
+            (repeat' split at hc) <;> (try (simp at hc; done)) <;>
+            (repeat' split at h0) <;> (try (simp [isOk] at h0; done)) <;> omega
+  · intro hb
+    exact benign_no_crash (.leaf l) hb
 
 /-! Non-vacuity: concrete accepted, benign configurations, evaluated by the kernel. -/
 
